@@ -4,7 +4,7 @@ sys.path.insert(0, os.path.dirname(os.path.abspath(__file__)))
 import framework
 from framework import run_property
 import bbs_tables as T
-import rf_hash, rf_gates, rf_consts, rf_panic, rf_frame, rf_rand, rf_codec, rf_bits, rf_accept, rf_gatesets, rf_errors
+import rf_hash, rf_gates, rf_consts, rf_panic, rf_frame, rf_rand, rf_codec, rf_bits, rf_accept, rf_gatesets, rf_errors, rf_senses
 import cl03_rules as CL
 
 CL03_FS_SCOPE = ('cl03::sigma_protocols::NISP2', 'cl03::sigma_protocols::NISPSecrets', 'cl03::sigma_protocols::NISPMulti')
@@ -82,6 +82,7 @@ def P(pid):
             ('RF-D identity exclusion', lambda c: rf_gates.rule_accept_requirements(c, only(T.IDENTITY_REQS, T.POK + 'proof_verify')), 3),
             ('RF-K every proof field gates', lambda c: rf_gates.rule_all_fields_gate(c, T.POK + 'proof_verify', 'self', 'BBSplusPoKSignature'), 8),
             ('RF-D checked constructors only', rf_frame.rule_checked_constructors, 8),
+            ('RF-E decoder framing (no trailing or missing octets in an encoded proof)', rf_frame.rule_decoder_framing, 7),
             ('RF-T size thresholds (uniform behaviour in L / lengths)', rf_frame.rule_size_thresholds, 3),
         ]
         meta['explanation'] = ('Necessary conditions of proof soundness: challenge ingredients must-flow, the challenge equality and the pairing '
@@ -134,6 +135,8 @@ def P(pid):
             ('RF-P accumulation loops cover every message', lambda c: rf_codec.rule_loop_coverage(c, fns=['bbsplus::proof::proof_init', 'bbsplus::proof::proof_verify_init', 'bbsplus::proof::proof_finalize']), 5),
             ('RF-T size thresholds (uniform behaviour in L / lengths)', rf_frame.rule_size_thresholds, 3),
             ('RF-G2 role positions (prover)', rf_rand.rule_role_projection, 6),
+            ('RF-G2 the production source of blinding scalars returns exactly `count` of them', rf_rand.rule_draw_in_loop, 2),
+            ('RF-D the serde decoder of a proof refuses zero scalars and nothing else (sense of the test, element by element)', rf_codec.rule_serde_checked_decoders, 6),
             ('RF-F proof_gen panic census', lambda c: rf_panic.rule_panic_census(c, entries=[T.POK + 'proof_gen'], with_serde=False, min_functions=10), 25),
             ('RF-D success values are computed from the inputs they bind', lambda c: rf_frame.rule_result_binding(c, only=['::proof_gen']), 6),
             ('RF-L index lists are validated against their own message list', rf_frame.rule_index_lists_validated, 5),
@@ -157,6 +160,7 @@ def P(pid):
             ('RF-O production/mock twin agreement', rf_rand.rule_cfg_twins, 8),
             ('RF-P accumulation loops (commit / blind B)', lambda c: rf_codec.rule_loop_coverage(c, fns=['bbsplus::commitment::core_commit', 'bbsplus::commitment::core_commit_verify', 'bbsplus::blind::calculate_b']), 3),
             ('RF-G2 role positions (commit)', rf_rand.rule_role_projection, 6),
+            ('RF-G2 the production source of blinding scalars returns exactly `count` of them', rf_rand.rule_draw_in_loop, 2),
             ('RF-T size thresholds (uniform behaviour in L / lengths)', rf_frame.rule_size_thresholds, 3),
             ('RF-B index translation agreement', rf_codec.rule_index_translation, 2),
             ('RF-L the blind verifier keeps signer and committed positions apart', rf_frame.rule_blind_verifier_index_ranges, 4),
@@ -262,11 +266,14 @@ def P(pid):
             ('RF-D CL03 verify gates (equation, e range, attribute range)', lambda c: rf_gates.rule_accept_requirements(c, CL.C13_REQS), 6),
             ('RF-K the verifier pins the representative of every transmitted integer', lambda c: CL.rule_canonical_representatives(c, CL.REPRESENTATIVE_SPECS['C13']), 6),
             ('RF-Q issued exponent leaves the loop only when valid', CL.rule_e_loop_exit, 3),
+            ('RF-F secure_pow_mod exponents are positive by construction', CL.rule_secure_pow_exponents, 2),
+            ('RF-T size special cases of the CL03 code are the tabled ones', rf_frame.rule_size_thresholds_cl03, 3),
             ('RF-D a signature is computed from the key, the bases and every attribute', lambda c: rf_frame.rule_result_binding(c, table={k: v for k, v in rf_frame.RESULT_BINDING_CL03.items() if '::sign' in k and 'blind' not in k}), 8),
             ('RF-N CL03 signature octets: reader offsets = writer offsets', rf_codec.rule_cl03_signature_codec, 1),
             ('RF-N serde writer/reader agreement (CL03 keys, signatures, bases, messages)', lambda c: rf_codec.rule_serde_symmetry(c, scope=('cl03::signature', 'cl03::keys', 'cl03::bases', 'cl03::blind', 'utils::message::cl03_message'), min_types=5), 15),
             ('RF-P every attribute is folded with the base of its own position', lambda c: rf_codec.rule_loop_coverage(c, fns=[CL.SIGI + 'sign_multiattr', CL.SIGI + 'verify_multiattr'], follow_prefix='cl03::signature::'), 3),
             ('RF-W acceptance conditions test the combinations of inputs tested before', lambda c: rf_gatesets.rule_gate_sets(c, group='cl03', only=['::verify', 'verify_multiattr']), 2),
+            ('RF-S the tests acceptance rests on hold the way round and with the strictness they had', lambda c: rf_senses.rule_acceptance_senses(c, group='cl03', only=['CL03<CS>>>::verify', 'verify_multiattr']), 2),
         ]
         meta['explanation'] = ('CL03 is analysed in the all-features configuration the baseline never builds. Decided (necessary): verify / verify_multiattr accept only through '
                                'the equation comparison (depending on v, e, s, bases, attributes, b, c, N), the lower bound on e and a comparison of every attribute with 2^lm '
@@ -279,6 +286,9 @@ def P(pid):
             ('RF-B pass-through arguments keep their role (CL03)', lambda c: rf_consts.rule_argument_roles(c, scope=('cl03::',), min_sites=25), 25),
             ('RF-D blind_sign gated by verify_proof', CL.rule_blind_sign_gated, 2),
             ('RF-D every issuing function checks a proof for the commitment it signs', CL.rule_issuing_functions_gated, 3),
+            ('RF-D revealed attributes are used whenever they are handed in', CL.rule_optional_attributes_used, 3),
+            ('RF-F secure_pow_mod exponents are positive by construction', CL.rule_secure_pow_exponents, 2),
+            ('RF-T size special cases of the CL03 code are the tabled ones', rf_frame.rule_size_thresholds_cl03, 3),
             ('RF-Q every issued signature (blind_sign, update_signature) gets an exponent of its own from the search loop', CL.rule_e_loop_exit, 4),
             ('RF-D the blind signature is computed from the commitment, the key, the bases and the revealed attributes', lambda c: rf_frame.rule_result_binding(c, table={k: v for k, v in rf_frame.RESULT_BINDING_CL03.items() if 'blind_sign' in k}), 6),
             ('RF-C Fiat-Shamir ingredients of the issuance sigma protocols', lambda c: rf_hash.rule_hash_binding(c, rf_hash.CL03_FS_TABLE, CL03_FS_SCOPE), 38),
@@ -293,6 +303,7 @@ def P(pid):
             ('RF-D sub-verifiers cannot be switched off by the proof', CL.rule_checks_not_skippable_by_artefact, 8),
             ('RF-P cursor discipline', CL.rule_cursor_discipline, 10),
             ('RF-W acceptance conditions test the combinations of inputs tested before', lambda c: rf_gatesets.rule_gate_sets(c, group='cl03', only=['verify_proof']), 2),
+            ('RF-S the tests acceptance rests on hold the way round and with the strictness they had', lambda c: rf_senses.rule_acceptance_senses(c, group='cl03', only=['verify_proof']), 1),
         ]
         meta['explanation'] = ('Decided (necessary): every use of the secret key in blind_sign is dominated by verify_proof == true on the very C, C_trusted, pk, bases, key and positions '
                                'that are signed; verify_proof is gated by the multi-secret PoK, the per-attribute PoKs / range proofs and the PoK / range proof of r; each per-attribute commitment '
@@ -317,6 +328,7 @@ def P(pid):
             ('RF-D sub-verifiers cannot be switched off by the proof', CL.rule_checks_not_skippable_by_artefact, 8),
             ('RF-P cursor discipline (revealed / hidden position bookkeeping)', CL.rule_cursor_discipline, 10),
             ('RF-W acceptance conditions test the combinations of inputs tested before', lambda c: rf_gatesets.rule_gate_sets(c, group='cl03', only=['proof_verify']), 2),
+            ('RF-S the tests acceptance rests on hold the way round and with the strictness they had', lambda c: rf_senses.rule_acceptance_senses(c, group='cl03', only=['proof_verify']), 1),
         ]
         meta['explanation'] = ('Decided (necessary): the recomputed challenge equality gates acceptance and depends on all nine responses, the four commitment values, both keys, the bases, the revealed '
                                'attributes and the attribute count; Ce is equated with the range proof on e and each per-attribute commitment with its range proof; every serialised leaf of the proof '
@@ -333,8 +345,11 @@ def P(pid):
             ('RF-O prover and verifier agree on the interval of the larger-interval response', CL.rule_response_interval_agreement, 2),
             ('RF-Q the larger-interval sub-proofs are given the bound of the remainder', CL.rule_remainder_bound, 3),
             ('RF-Q tolerance exponent shape', CL.rule_tolerance_exponent, 2),
+            ('RF-Q the tolerance parameter T = 2(t + l + 1) + bit length of the width', CL.rule_tolerance_parameter, 3),
+            ('RF-F secure_pow_mod exponents are positive by construction', CL.rule_secure_pow_exponents, 2),
             ('RF-Q the honest prover refuses out-of-range values', CL.rule_prover_refuses_out_of_range, 3),
             ('RF-W acceptance conditions test the combinations of inputs tested before', lambda c: rf_gatesets.rule_gate_sets(c, group='cl03', only=['Boudot2000RangeProof::verify']), 2),
+            ('RF-S the tests acceptance rests on hold the way round and with the strictness they had', lambda c: rf_senses.rule_acceptance_senses(c, group='cl03', only=['Boudot2000RangeProof::verify']), 1),
         ]
         meta['explanation'] = ('Decided (necessary): acceptance of a Boudot range proof is gated by E\' == E^(2^T), the two decomposition equalities, both proofs of square and both larger-interval '
                                'proofs, each depending on the commitment, bases, modulus and bounds; the commitment carried by each proof of square is equated with E_a_1 / E_b_1 (the transplant defect); '
@@ -378,21 +393,21 @@ ALL = ['C%02d' % i for i in range(1, 20)]
 # unfix-* = reverse of a `fix:` commit of /repo; seeded/* = changes written by independent sub-agents (see DESIGN.md section 6).
 CONTROLS = {
     'C01': ['seeded/C01-a/patch.diff', 'seeded/C01-b/patch.diff', 'seeded/C01-c/patch.diff', 'seeded/C01-d/patch.diff', 'seeded/C01-e/patch.diff', 'seeded/C01-g/patch.diff'],
-    'C02': ['selftest/mutants/unfix-1a8aa8f.patch', 'seeded/C02-a/patch.diff', 'seeded/C04-a/patch.diff', 'seeded/C02-b/patch.diff', 'seeded/C02-c/patch.diff', 'seeded/C02-d/patch.diff', 'seeded/C02-e/patch.diff', 'seeded/C02-g/patch.diff'],
-    'C03': ['seeded/C03-a/patch.diff', 'seeded/C03-c/patch.diff', 'seeded/C03-d/patch.diff', 'seeded/C03-e/patch.diff', 'seeded/C03-g/patch.diff'],
-    'C04': ['selftest/mutants/unfix-4e31b69.patch', 'selftest/mutants/unfix-1c8b8b0.patch', 'selftest/mutants/unfix-99e0eb6.patch', 'selftest/mutants/unfix-44a689e.patch', 'seeded/C04-a/patch.diff', 'seeded/C04-b/patch.diff', 'seeded/C04-c/patch.diff', 'seeded/C04-d/patch.diff', 'seeded/C04-f/patch.diff'],
-    'C05': ['seeded/C05-a/patch.diff', 'seeded/C05-b/patch.diff', 'seeded/C05-c/patch.diff', 'seeded/C05-d/patch.diff', 'seeded/C05-e/patch.diff', 'seeded/C05-g/patch.diff'],
-    'C06': ['selftest/mutants/unfix-99e0eb6.patch', 'selftest/mutants/unfix-44a689e.patch', 'seeded/C06-a/patch.diff', 'seeded/C06-b/patch.diff', 'seeded/C06-c/patch.diff', 'seeded/C06-d/patch.diff', 'seeded/C06-e/patch.diff', 'seeded/C06-f/patch.diff'],
+    'C02': ['selftest/mutants/unfix-1a8aa8f.patch', 'seeded/C02-a/patch.diff', 'seeded/C04-a/patch.diff', 'seeded/C02-b/patch.diff', 'seeded/C02-c/patch.diff', 'seeded/C02-d/patch.diff', 'seeded/C02-e/patch.diff', 'seeded/C02-g/patch.diff', 'seeded/C02-h/patch.diff'],
+    'C03': ['seeded/C03-a/patch.diff', 'seeded/C03-c/patch.diff', 'seeded/C03-d/patch.diff', 'seeded/C03-e/patch.diff', 'seeded/C03-g/patch.diff', 'seeded/C03-h/patch.diff', 'seeded/C03-i/patch.diff'],
+    'C04': ['selftest/mutants/unfix-4e31b69.patch', 'selftest/mutants/unfix-1c8b8b0.patch', 'selftest/mutants/unfix-99e0eb6.patch', 'selftest/mutants/unfix-44a689e.patch', 'seeded/C04-a/patch.diff', 'seeded/C04-b/patch.diff', 'seeded/C04-c/patch.diff', 'seeded/C04-d/patch.diff', 'seeded/C04-f/patch.diff', 'seeded/C04-h/patch.diff', 'seeded/C04-i/patch.diff'],
+    'C05': ['seeded/C05-a/patch.diff', 'seeded/C05-b/patch.diff', 'seeded/C05-c/patch.diff', 'seeded/C05-d/patch.diff', 'seeded/C05-e/patch.diff', 'seeded/C05-g/patch.diff', 'seeded/C05-h/patch.diff'],
+    'C06': ['selftest/mutants/unfix-99e0eb6.patch', 'selftest/mutants/unfix-44a689e.patch', 'seeded/C06-a/patch.diff', 'seeded/C06-b/patch.diff', 'seeded/C06-c/patch.diff', 'seeded/C06-d/patch.diff', 'seeded/C06-e/patch.diff', 'seeded/C06-f/patch.diff', 'seeded/C06-h/patch.diff', 'seeded/C06-i/patch.diff'],
     'C07': ['seeded/C07-a/patch.diff', 'seeded/C07-b/patch.diff', 'seeded/C07-c/patch.diff', 'seeded/C07-d/patch.diff', 'seeded/C07-e/patch.diff', 'seeded/C07-g/patch.diff'],
     'C08': ['selftest/mutants/unfix-928b770.patch', 'selftest/mutants/unfix-05eab20.patch', 'selftest/mutants/unfix-6597d81.patch', 'seeded/C08-b/patch.diff', 'selftest/mutants/work-unbounded-L.patch', 'seeded/C08-d/patch.diff', 'seeded/C08-e/patch.diff', 'seeded/C08-g/patch.diff'],
-    'C09': ['selftest/mutants/unfix-928b770.patch', 'selftest/mutants/unfix-4e31b69.patch', 'selftest/mutants/unfix-e3aa4b0.patch', 'selftest/mutants/unfix-1a8aa8f.patch', 'selftest/mutants/unfix-07e52dd.patch', 'selftest/mutants/unfix-dc0c0a4.patch', 'seeded/C09-a/patch.diff', 'seeded/C09-b/patch.diff', 'seeded/C09-c/patch.diff', 'seeded/C09-d/patch.diff', 'seeded/C09-e/patch.diff', 'seeded/C09-f/patch.diff'],
-    'C10': ['selftest/mutants/unfix-1a8aa8f.patch', 'selftest/mutants/unfix-e3aa4b0.patch', 'seeded/C10-a/patch.diff', 'seeded/C10-b/patch.diff', 'seeded/C10-c/patch.diff', 'seeded/C10-d/patch.diff', 'seeded/C10-e/patch.diff', 'seeded/C10-f/patch.diff'],
+    'C09': ['selftest/mutants/unfix-928b770.patch', 'selftest/mutants/unfix-4e31b69.patch', 'selftest/mutants/unfix-e3aa4b0.patch', 'selftest/mutants/unfix-1a8aa8f.patch', 'selftest/mutants/unfix-07e52dd.patch', 'selftest/mutants/unfix-dc0c0a4.patch', 'seeded/C09-a/patch.diff', 'seeded/C09-b/patch.diff', 'seeded/C09-c/patch.diff', 'seeded/C09-d/patch.diff', 'seeded/C09-e/patch.diff', 'seeded/C09-f/patch.diff', 'seeded/C09-h/patch.diff', 'seeded/C09-i/patch.diff'],
+    'C10': ['selftest/mutants/unfix-1a8aa8f.patch', 'selftest/mutants/unfix-e3aa4b0.patch', 'seeded/C10-a/patch.diff', 'seeded/C10-b/patch.diff', 'seeded/C10-c/patch.diff', 'seeded/C10-d/patch.diff', 'seeded/C10-e/patch.diff', 'seeded/C10-f/patch.diff', 'seeded/C10-h/patch.diff', 'seeded/C10-i/patch.diff'],
     'C11': ['seeded/C11-a/patch.diff', 'seeded/C11-b/patch.diff', 'seeded/C11-c/patch.diff', 'seeded/C11-d/patch.diff', 'seeded/C11-e/patch.diff', 'seeded/C11-g/patch.diff'],
-    'C12': ['selftest/mutants/unfix-ae1f505.patch', 'seeded/C12-a/patch.diff', 'seeded/C12-b/patch.diff', 'seeded/C12-c/patch.diff', 'seeded/C12-d/patch.diff', 'seeded/C12-e/patch.diff', 'seeded/C12-g/patch.diff'],
-    'C13': ['selftest/mutants/unfix-4faa0f0.patch', 'selftest/mutants/unfix-d5d2c0e.patch', 'selftest/mutants/unfix-d882cd3.patch', 'seeded/C13-a/patch.diff', 'seeded/C13-b/patch.diff', 'seeded/C13-c/patch.diff', 'seeded/C13-d/patch.diff', 'seeded/C13-e/patch.diff', 'seeded/C13-f/patch.diff'],
-    'C14': ['selftest/mutants/unfix-2e6b8d5.patch', 'selftest/mutants/unfix-2d01ace.patch', 'selftest/mutants/unfix-7b76bb5.patch', 'selftest/mutants/unfix-16c9f60.patch', 'seeded/C14-b/patch.diff', 'seeded/C14-d/patch.diff', 'seeded/C14-e/patch.diff', 'seeded/C14-f/patch.diff'],
-    'C15': ['selftest/mutants/unfix-2d01ace.patch', 'selftest/mutants/unfix-85ebe8e.patch', 'selftest/mutants/unfix-164e21b.patch', 'seeded/C15-a/patch.diff', 'seeded/C15-b/patch.diff', 'seeded/C15-c/patch.diff', 'seeded/C15-d/patch.diff', 'seeded/C15-e/patch.diff', 'seeded/C15-f/patch.diff'],
-    'C16': ['selftest/mutants/unfix-b52ed69.patch', 'selftest/mutants/unfix-2d81d25.patch', 'selftest/mutants/unfix-96df85f.patch', 'seeded/C16-a/patch.diff', 'seeded/C16-b/patch.diff', 'seeded/C16-c/patch.diff', 'seeded/C16-d/patch.diff', 'seeded/C16-f/patch.diff'],
+    'C12': ['selftest/mutants/unfix-ae1f505.patch', 'seeded/C12-a/patch.diff', 'seeded/C12-b/patch.diff', 'seeded/C12-c/patch.diff', 'seeded/C12-d/patch.diff', 'seeded/C12-e/patch.diff', 'seeded/C12-g/patch.diff', 'seeded/C12-h/patch.diff'],
+    'C13': ['selftest/mutants/unfix-4faa0f0.patch', 'selftest/mutants/unfix-d5d2c0e.patch', 'selftest/mutants/unfix-d882cd3.patch', 'seeded/C13-a/patch.diff', 'seeded/C13-b/patch.diff', 'seeded/C13-c/patch.diff', 'seeded/C13-d/patch.diff', 'seeded/C13-e/patch.diff', 'seeded/C13-f/patch.diff', 'seeded/C13-h/patch.diff', 'seeded/C13-i/patch.diff'],
+    'C14': ['selftest/mutants/unfix-2e6b8d5.patch', 'selftest/mutants/unfix-2d01ace.patch', 'selftest/mutants/unfix-7b76bb5.patch', 'selftest/mutants/unfix-16c9f60.patch', 'selftest/mutants/unfix-9a8e02d.patch', 'seeded/C14-b/patch.diff', 'seeded/C14-d/patch.diff', 'seeded/C14-e/patch.diff', 'seeded/C14-f/patch.diff', 'seeded/C14-h/patch.diff', 'seeded/C14-i/patch.diff'],
+    'C15': ['selftest/mutants/unfix-2d01ace.patch', 'selftest/mutants/unfix-85ebe8e.patch', 'selftest/mutants/unfix-164e21b.patch', 'seeded/C15-a/patch.diff', 'seeded/C15-b/patch.diff', 'seeded/C15-c/patch.diff', 'seeded/C15-d/patch.diff', 'seeded/C15-e/patch.diff', 'seeded/C15-f/patch.diff', 'seeded/C15-h/patch.diff', 'seeded/C15-i/patch.diff'],
+    'C16': ['selftest/mutants/unfix-b52ed69.patch', 'selftest/mutants/unfix-2d81d25.patch', 'selftest/mutants/unfix-96df85f.patch', 'seeded/C16-a/patch.diff', 'seeded/C16-b/patch.diff', 'seeded/C16-c/patch.diff', 'seeded/C16-d/patch.diff', 'seeded/C16-f/patch.diff', 'seeded/C16-h/patch.diff', 'seeded/C16-i/patch.diff'],
     'C17': ['seeded/C17-a/patch.diff', 'seeded/C17-b/patch.diff', 'seeded/C17-c/patch.diff', 'seeded/C17-d/patch.diff', 'seeded/C17-e/patch.diff', 'seeded/C17-g/patch.diff'],
     'C18': ['seeded/C18-a/patch.diff', 'seeded/C18-b/patch.diff', 'seeded/C18-c/patch.diff', 'seeded/C18-d/patch.diff', 'seeded/C18-e/patch.diff', 'seeded/C18-g/patch.diff'],
     'C19': ['seeded/C19-a/patch.diff', 'seeded/C19-b/patch.diff', 'seeded/C19-c/patch.diff', 'seeded/C19-d/patch.diff', 'seeded/C19-e/patch.diff', 'seeded/C19-g/patch.diff'],
@@ -466,6 +481,11 @@ for _g, _ps in _R12.items():
             for _p in _ps:
                 if _p not in _R12_EXCEPT.get((_g, _j), ()):
                     NEGATIVE[_p].append(_f)
+
+# round 14: other spellings of "use the revealed attributes whenever they are there" (tuple match, Option::map, a loop over the Option, is_some + unwrap)
+for _j in (1, 2, 3, 4):
+    for _p in ('C14', 'C13', 'C17'):
+        NEGATIVE[_p].append('selftest/negative/R14N1-p%d.patch' % _j)
 
 # rules that are also evaluated on the other production configurations in the thorough tier (guards against feature-gated divergence)
 def thorough_extra(pid):
